@@ -57,3 +57,16 @@ func (s *Store) VerifRevenueFundingRows(account rhp3.Account) (rows []VerifReven
 	})
 	return
 }
+
+// VerifRevenueSectorRow reports whether `stored_sectors` has a row for the root — the lookup
+// `updateSector` makes for the new root of an RHP2 update action (referenced or not).
+func (s *Store) VerifRevenueSectorRow(root types.Hash256) (ok bool, err error) {
+	err = s.transaction(func(tx *txn) error {
+		var id int64
+		if e := tx.QueryRow(`SELECT id FROM stored_sectors WHERE sector_root=$1`, encode(root)).Scan(&id); e == nil {
+			ok = true
+		}
+		return nil
+	})
+	return
+}
